@@ -10,6 +10,7 @@ pub use self::actual::parallel_collect;
 pub use self::actual::parallel_foreach_mut;
 pub use self::actual::parallel_into_collect;
 
+#[cfg(not(reinterpretcat_vrp_verif))]
 #[cfg(not(target_arch = "wasm32"))]
 mod actual {
     use rayon::prelude::*;
@@ -104,6 +105,7 @@ mod actual {
     }
 }
 
+#[cfg(not(reinterpretcat_vrp_verif))]
 #[cfg(target_arch = "wasm32")]
 mod actual {
     /// Represents a thread pool wrapper.
@@ -188,5 +190,298 @@ mod actual {
         F: Fn(&mut T) + Send + Sync,
     {
         source.iter_mut().for_each(action)
+    }
+}
+
+/// Verification-only seam: fork-join execution driven by an externally supplied plan.
+/// Compiled only with `--cfg reinterpretcat_vrp_verif`; shipped builds are unaffected.
+#[cfg(reinterpretcat_vrp_verif)]
+pub mod verif {
+    use std::cell::RefCell;
+    use std::panic::Location;
+    use std::rc::Rc;
+
+    /// A kind of fork-join entry point.
+    #[derive(Clone, Copy, Debug, PartialEq, Eq, Hash)]
+    pub enum ForkJoinKind {
+        /// `parallel_collect`.
+        Collect,
+        /// `parallel_into_collect`.
+        IntoCollect,
+        /// `map_reduce`.
+        MapReduce,
+        /// `fold_reduce`.
+        FoldReduce,
+        /// `parallel_foreach_mut`.
+        ForEachMut,
+    }
+
+    /// A single step of a fork-join execution plan (a post-order program over a value stack).
+    #[derive(Clone, Copy, Debug, PartialEq, Eq)]
+    pub enum Step {
+        /// Processes items `[start, end)` as one leaf task on a given worker and pushes its result.
+        Leaf {
+            /// First item index.
+            start: usize,
+            /// One past last item index.
+            end: usize,
+            /// Virtual worker which runs the leaf.
+            worker: usize,
+        },
+        /// Pops two results and reduces them: `(left, right)`, or as pushed in reverse when `swapped`.
+        Reduce {
+            /// Virtual worker which runs the reduction.
+            worker: usize,
+            /// True when right operand was pushed before the left one.
+            swapped: bool,
+        },
+    }
+
+    /// Decides how every fork-join of the current OS thread is executed.
+    pub trait ForkJoinDriver {
+        /// Returns an execution plan for `len` items; `product` is a shape of cartesian product if any.
+        fn plan(
+            &self,
+            kind: ForkJoinKind,
+            site: &'static Location<'static>,
+            len: usize,
+            product: Option<(usize, usize)>,
+        ) -> Vec<Step>;
+        /// Called before a step is executed.
+        fn begin_step(&self, step: &Step);
+        /// Called after a step is executed.
+        fn end_step(&self, step: &Step);
+        /// Called when the whole plan is executed.
+        fn finish(&self);
+        /// Registers a new thread pool and returns its id.
+        fn pool_new(&self, num_threads: usize) -> usize;
+        /// Called when execution enters a pool.
+        fn pool_enter(&self, pool: usize);
+        /// Called when execution leaves a pool.
+        fn pool_leave(&self, pool: usize);
+    }
+
+    thread_local! {
+        static DRIVER: RefCell<Option<Rc<dyn ForkJoinDriver>>> = const { RefCell::new(None) };
+        static PRODUCT: RefCell<Option<(usize, usize)>> = const { RefCell::new(None) };
+    }
+
+    /// Installs (or removes) a driver for the current thread returning the previous one.
+    pub fn set_driver(driver: Option<Rc<dyn ForkJoinDriver>>) -> Option<Rc<dyn ForkJoinDriver>> {
+        DRIVER.with(|d| std::mem::replace(&mut *d.borrow_mut(), driver))
+    }
+
+    pub(super) fn driver() -> Option<Rc<dyn ForkJoinDriver>> {
+        DRIVER.with(|d| d.borrow().clone())
+    }
+
+    pub(super) fn set_product(shape: (usize, usize)) {
+        PRODUCT.with(|p| *p.borrow_mut() = Some(shape));
+    }
+
+    pub(super) fn take_product() -> Option<(usize, usize)> {
+        PRODUCT.with(|p| p.borrow_mut().take())
+    }
+}
+
+#[cfg(reinterpretcat_vrp_verif)]
+mod actual {
+    use super::verif::*;
+    use std::panic::Location;
+    use std::rc::Rc;
+
+    /// Represents a thread pool wrapper (virtual).
+    pub struct ThreadPool {
+        id: Option<usize>,
+    }
+
+    impl ThreadPool {
+        /// Creates a new instance of `ThreadPool`.
+        pub fn new(num_threads: usize) -> Self {
+            Self { id: driver().map(|driver| driver.pool_new(num_threads)) }
+        }
+
+        /// Executes given operation on thread pool (virtual).
+        pub fn execute<OP, R>(&self, op: OP) -> R
+        where
+            OP: FnOnce() -> R + Send,
+            R: Send,
+        {
+            match (driver(), self.id) {
+                (Some(driver), Some(id)) => {
+                    driver.pool_enter(id);
+                    let result = op();
+                    driver.pool_leave(id);
+                    result
+                }
+                _ => op(),
+            }
+        }
+    }
+
+    fn get_plan(
+        kind: ForkJoinKind,
+        site: &'static Location<'static>,
+        len: usize,
+        product: Option<(usize, usize)>,
+    ) -> (Option<Rc<dyn ForkJoinDriver>>, Vec<Step>) {
+        match driver() {
+            Some(driver) => {
+                let steps = driver.plan(kind, site, len, product);
+                (Some(driver), steps)
+            }
+            None => (None, vec![Step::Leaf { start: 0, end: len, worker: 0 }]),
+        }
+    }
+
+    fn run_plan<F: FnMut(&Step)>(driver: Option<Rc<dyn ForkJoinDriver>>, steps: Vec<Step>, mut action: F) {
+        steps.iter().for_each(|step| {
+            if let Some(driver) = driver.as_ref() {
+                driver.begin_step(step);
+            }
+            action(step);
+            if let Some(driver) = driver.as_ref() {
+                driver.end_step(step);
+            }
+        });
+        if let Some(driver) = driver.as_ref() {
+            driver.finish();
+        }
+    }
+
+    /// Creates a cartesian product returning an iterator.
+    pub fn cartesian_product<'a, A, B>(a: &'a [A], b: &'a [B]) -> impl Iterator<Item = (&'a A, &'a B)>
+    where
+        A: Send + Sync + 'a,
+        B: Send + Sync + 'a,
+    {
+        set_product((a.len(), b.len()));
+        a.iter().flat_map(|a| b.iter().map(move |b| (a, b)))
+    }
+
+    /// Map collections and collects results into vector according to the plan.
+    #[track_caller]
+    pub fn parallel_collect<T, F, R>(source: &[T], map_op: F) -> Vec<R>
+    where
+        T: Send + Sync,
+        F: Fn(&T) -> R + Sync + Send,
+        R: Send,
+    {
+        let (driver, steps) = get_plan(ForkJoinKind::Collect, Location::caller(), source.len(), None);
+        let mut results = (0..source.len()).map(|_| None).collect::<Vec<Option<R>>>();
+        run_plan(driver, steps, |step| {
+            if let Step::Leaf { start, end, .. } = *step {
+                (start..end).for_each(|idx| results[idx] = Some(map_op(&source[idx])));
+            }
+        });
+
+        results.into_iter().map(|result| result.expect("plan does not cover all items")).collect()
+    }
+
+    /// Map collections and collects results into vector according to the plan.
+    #[track_caller]
+    pub fn parallel_into_collect<T, F, R>(source: Vec<T>, map_op: F) -> Vec<R>
+    where
+        T: Send + Sync,
+        F: Fn(T) -> R + Sync + Send,
+        R: Send,
+    {
+        let (driver, steps) = get_plan(ForkJoinKind::IntoCollect, Location::caller(), source.len(), None);
+        let mut source = source.into_iter().map(Some).collect::<Vec<_>>();
+        let mut results = (0..source.len()).map(|_| None).collect::<Vec<Option<R>>>();
+        run_plan(driver, steps, |step| {
+            if let Step::Leaf { start, end, .. } = *step {
+                (start..end).for_each(|idx| {
+                    results[idx] = Some(map_op(source[idx].take().expect("plan visits an item twice")))
+                });
+            }
+        });
+
+        results.into_iter().map(|result| result.expect("plan does not cover all items")).collect()
+    }
+
+    /// Performs map and reduce operations according to the plan.
+    #[track_caller]
+    pub fn map_reduce<T, S, FM, FR, FD, R>(source: S, map_op: FM, default_op: FD, reduce_op: FR) -> R
+    where
+        T: Send + Sync,
+        S: IntoIterator<Item = T>,
+        FM: Fn(T) -> R + Sync + Send,
+        FR: Fn(R, R) -> R + Sync + Send,
+        FD: Fn() -> R + Sync + Send,
+        R: Send,
+    {
+        let mut source = source.into_iter().map(Some).collect::<Vec<_>>();
+        let (driver, steps) = get_plan(ForkJoinKind::MapReduce, Location::caller(), source.len(), None);
+        let mut stack: Vec<R> = Vec::new();
+        run_plan(driver, steps, |step| match *step {
+            Step::Leaf { start, end, .. } => {
+                let result = (start..end).fold(default_op(), |acc, idx| {
+                    reduce_op(acc, map_op(source[idx].take().expect("plan visits an item twice")))
+                });
+                stack.push(result);
+            }
+            Step::Reduce { swapped, .. } => {
+                let second = stack.pop().expect("plan underflow");
+                let first = stack.pop().expect("plan underflow");
+                let (left, right) = if swapped { (second, first) } else { (first, second) };
+                stack.push(reduce_op(left, right));
+            }
+        });
+
+        let result = stack.pop().expect("plan produces no result");
+        assert!(stack.is_empty(), "plan leaves unreduced results");
+
+        result
+    }
+
+    /// Performs fold and then reduce operations according to the plan.
+    #[track_caller]
+    pub fn fold_reduce<T, S, FI, FF, FR, R>(source: S, identity: FI, mut fold: FF, mut reduce: FR) -> R
+    where
+        T: Send + Sync,
+        S: IntoIterator<Item = T>,
+        FI: Fn() -> R + Sync + Send,
+        FF: FnMut(R, T) -> R + Sync + Send,
+        FR: FnMut(R, R) -> R + Sync + Send,
+        R: Send,
+    {
+        let mut source = source.into_iter().map(Some).collect::<Vec<_>>();
+        let product = take_product().filter(|(a, b)| a * b == source.len());
+        let (driver, steps) = get_plan(ForkJoinKind::FoldReduce, Location::caller(), source.len(), product);
+        let mut stack: Vec<R> = Vec::new();
+        run_plan(driver, steps, |step| match *step {
+            Step::Leaf { start, end, .. } => {
+                let folded = (start..end)
+                    .fold(identity(), |acc, idx| fold(acc, source[idx].take().expect("plan visits an item twice")));
+                stack.push(reduce(identity(), folded));
+            }
+            Step::Reduce { swapped, .. } => {
+                let second = stack.pop().expect("plan underflow");
+                let first = stack.pop().expect("plan underflow");
+                let (left, right) = if swapped { (second, first) } else { (first, second) };
+                stack.push(reduce(left, right));
+            }
+        });
+
+        let result = stack.pop().expect("plan produces no result");
+        assert!(stack.is_empty(), "plan leaves unreduced results");
+
+        result
+    }
+
+    /// Performs mutable foreach according to the plan.
+    #[track_caller]
+    pub fn parallel_foreach_mut<T, F>(source: &mut [T], action: F)
+    where
+        T: Send + Sync,
+        F: Fn(&mut T) + Send + Sync,
+    {
+        let (driver, steps) = get_plan(ForkJoinKind::ForEachMut, Location::caller(), source.len(), None);
+        run_plan(driver, steps, |step| {
+            if let Step::Leaf { start, end, .. } = *step {
+                source[start..end].iter_mut().for_each(&action);
+            }
+        });
     }
 }
